@@ -414,8 +414,8 @@ def chk_both(c, note):
 
 
 LEGS = [
-    Leg("totality_consistency", chk_any, strategy=s_any, quick=16000, thorough=1000000, doc="relations 1 and 2"),
-    Leg("completeness", chk_valid, strategy=s_valid, quick=16000, thorough=1000000, doc="relation 3: valid in-envelope register contents are accepted and listed"),
-    Leg("soundness", chk_broken, strategy=s_broken, quick=12000, thorough=600000, doc="relation 4: one broken status/reserved/format rule -> rejected"),
-    Leg("is50or60", chk_both, strategy=s_both, quick=12000, thorough=600000, doc="relation 5: arbitration between BDS 5,0 and 6,0"),
+    Leg("totality_consistency", chk_any, strategy=s_any, quick=16000, thorough=450000, doc="relations 1 and 2"),
+    Leg("completeness", chk_valid, strategy=s_valid, quick=16000, thorough=450000, doc="relation 3: valid in-envelope register contents are accepted and listed"),
+    Leg("soundness", chk_broken, strategy=s_broken, quick=12000, thorough=300000, doc="relation 4: one broken status/reserved/format rule -> rejected"),
+    Leg("is50or60", chk_both, strategy=s_both, quick=12000, thorough=300000, doc="relation 5: arbitration between BDS 5,0 and 6,0"),
 ]
